@@ -53,6 +53,24 @@ PROPS = {
   "streams": [eng(3000, 150000), eng(2000, 100000, "catch")],
   "trusted_base": ENGINE_TB, "assumptions": ENGINE_ASSUME,
  },
+ "C07": {
+  "module": "Zog.Props.C07",
+  "theorems": [P + "C07." + t for t in ["constructors_complete", "reinit_independent_of_dirt", "reinit_is_fresh", "skips_first", "acquire_ownedAcc", "acquireMany_ownedAcc", "step_owned", "ownership_invariant"]],
+  "streams": [st("pool", 800, 40000)],
+  "trusted_base": ["regenerated (go/ast): Gen.ctorAssigns / Gen.typeFields (which fields every pooled constructor assigns), Gen.collectMapSkipsFirst",
+                   "modelled, not verified: lean/Zog/Pool.lean (reinit of recycled records; issue-object identities over call/collect histories)",
+                   "assumed: sync.Pool hands an object to one caller at a time; the `Test` field of SchemaCtx is written by every test loop before it is read, `HasCaught` is never read (dead-before-written exemptions)"],
+  "assumptions": ["each result is handed back to the pool by its owner only (documented usage of the Collect helpers)"],
+ },
+ "C08": {
+  "module": "Zog.Props.C08",
+  "theorems": [P + "C08." + t for t in ["every_interleaving_owned", "flatten_disjoint", "concurrent_calls_hold_disjoint_objects", "shared_schema_only_read", "result_independent_of_recycled_contents"]],
+  "streams": [st("conc", 30000, 2000000), st("pool", 300, 10000)],
+  "trusted_base": ["PARTIAL: schedule-independence is proved in the ownership / interleaving model (every interleaving of acquire/release steps is an op list covered by the C07 invariant); data-race freedom in the sense of the Go memory model is NOT expressible in the model — the -race stress stream is supporting evidence for the model's assumptions",
+                   "regenerated (go/ast): Gen.schemaWrites = [] (no write to a schema receiver or package variable inside process/validate/Parse/Validate)",
+                   "assumed: sync.Pool's own atomicity; conf.IssueFormatter and conf.Coercers are not reassigned while calls are running"],
+  "assumptions": ["global configuration (conf.IssueFormatter, conf.Coercers, i18n) is set up before schemas are used concurrently"],
+ },
  "C09": {
   "module": "Zog.Props.C09",
   "theorems": COMMON + [P + "C09." + t for t in ["visit_order_is_permutation", "visit_order_same_length", "visit_order_mem", "engine_is_spec_for_every_order", "single_field_order_independent", "full_statement_false"]],
